@@ -131,3 +131,23 @@ Theorem C15_kernels_are_the_source `{Sig} :
   (forall n ks e, gen_swap_edge n ks e = swap_edge n ks e).
 Proof. exact kernels_are_the_source. Qed.
 Print Assumptions C15_kernels_are_the_source.
+
+(** Edge collapse to the midpoint, interior case: for the edge (l | r) between the triangles l -> a -> b and r -> c -> d
+    whose four other sides are glued to A2, B2, C2, D2 (ten distinct non-null darts), a collapse that terminates
+    normally removes the six darts of the two triangles (all their images null, flagged as removed), glues B2 | A2 and
+    D2 | C2, and leaves every other image and flag as it was.  On every store. *)
+From HC Require Import Map2.FanTopo Map2.CollapseTopo.
+Theorem C15_collapse_midpoint_topology `{Sig} : forall E n ks l c w cnt vid w' cnt',
+  let a := beta w 1 l in let b := beta w 0 l in let r := beta w 2 l in
+  let c0 := beta w 1 r in let d := beta w 0 r in
+  let A2 := beta w 2 a in let B2 := beta w 2 b in let C2 := beta w 2 c0 in let D2 := beta w 2 d in
+  NoDup [l; a; b; r; c0; d; A2; B2; C2; D2] -> ~ In 0 [l; a; b; r; c0; d; A2; B2; C2; D2] ->
+  beta w 1 a = b -> beta w 1 b = l -> beta w 1 c0 = d -> beta w 1 d = r -> beta w 2 r = l ->
+  run E (collapse_edge_to_midpoint n ks b l a d r c0) c w cnt = (Done vid, w', cnt') ->
+  (forall i x, beta w' i x =
+     if (x =? l) || (x =? a) || (x =? b) || (x =? r) || (x =? c0) || (x =? d) then (if i <? 3 then 0 else beta w i x)
+     else if i =? 2 then (if x =? B2 then A2 else if x =? A2 then B2 else if x =? D2 then C2 else if x =? C2 then D2 else beta w 2 x)
+     else beta w i x) /\
+  (forall x, unused w' x = if (x =? l) || (x =? a) || (x =? b) || (x =? r) || (x =? c0) || (x =? d) then true else unused w x).
+Proof. exact collapse_midpoint_topology. Qed.
+Print Assumptions C15_collapse_midpoint_topology.
